@@ -161,14 +161,25 @@ def session_wrap(run, rng, builds, seq0, label):
 def run(run):
     rng = run.rng
     th = run.thorough()
-    sessions = []
-    for i in range(60 if th else 16):
-        sessions.append(("handshake", session_handshake(run, rng, 60 if th else 40, "hs%d" % i)))
-    for i in range(120 if th else 24):
-        sessions.append(("mixed", session_mixed(run, rng, 200 if th else 90, "mx%d" % i)))
+    # sessions are generated lazily and the run stops generating once three of them disagree with the model:
+    # on a broken tree every session disagrees and replaying all of them only costs time and memory
+    plan = [("handshake", lambda i=i: session_handshake(run, rng, 60 if th else 40, "hs%d" % i)) for i in range(60 if th else 16)]
+    plan += [("mixed", lambda i=i: session_mixed(run, rng, 200 if th else 90, "mx%d" % i)) for i in range(120 if th else 24)]
     if th:
-        sessions.append(("wrap", session_wrap(run, rng, 3 * 65535 + 2000, None, "wrap-full")))
-    sessions.append(("wrap", session_wrap(run, rng, 2500, [65535 - 400, 65535 - 300], "wrap-near")))
+        plan.append(("wrap", lambda: session_wrap(run, rng, 3 * 65535 + 2000, None, "wrap-full")))
+    plan.append(("wrap", lambda: session_wrap(run, rng, 2500, [65535 - 400, 65535 - 300], "wrap-near")))
+
+    def sessions_iter():
+        bad = 0
+        for kind, mk in plan:
+            if bad >= 3:
+                run.notes.append("stopped generating sessions after three disagreements with the model")
+                return
+            r = mk()
+            if r[1]:
+                bad += 1
+            yield kind, r
+    sessions = sessions_iter()
 
     cases, impl, mod = [], [], []
     for n, (kind, (net, diffs, cfg)) in enumerate(sessions):
